@@ -211,6 +211,17 @@ def compare(py, ps, families=False):
     """Return list of (kind, detail) differences between a CPython and a pyscript result."""
     diffs = []
     e1, e2 = py["exc"], ps["exc"]
+    if e1 == "Budget" and e2 == "Budget":
+        # the tracer's own step budget ran out (a BaseException raised by the harness, not by the program): what the
+        # unwinding then does (__exit__ arguments, finally blocks) is not judged; the trace up to that point is
+        n = min(len(py["log"]), len(ps["log"]))
+        k = 0
+        while k < n and py["log"][k] == ps["log"][k]:
+            k += 1
+        # events recorded after the budget was hit come from unwinding: compare only the common prefix length minus those
+        if k < n and not any(str(ev).startswith(("exit:", "enter:")) for ev in py["log"][k : k + 1] + ps["log"][k : k + 1]):
+            diffs.append(("trace", f"first difference at event {k}: CPython {py['log'][k:k+6]} vs pyscript {ps['log'][k:k+6]}"))
+        return diffs
     if families:
         e1, e2 = exc_family(e1), exc_family(e2)
     if e1 != e2:
